@@ -25,3 +25,5 @@ for id in $ids; do
   fi
 done
 echo "CAUGHT-BY:${caught:- none}"
+rules=$(cat /tmp/seedcheck.$$/*.out | grep -E "^VIOLATED" | awk '{print $2}' | sort -u | tr '\n' ' ')
+echo "${caught:- none} | rules: $rules" > "$d/caught_by.txt"
